@@ -12,6 +12,8 @@ import (
 	"github.com/lindb/lindb/internal/vevid"
 	"github.com/lindb/lindb/internal/vsched"
 	"github.com/lindb/lindb/pkg/queue"
+	"github.com/lindb/lindb/pkg/queue/page"
+	"github.com/lindb/lindb/verif_h/qpages"
 )
 
 // A scenario: sequential prefix (preload / pre-consume / pre-ack), then the threads run concurrently on ONE group.
@@ -151,6 +153,8 @@ func (w *cworld) run(ti int, ops []string) {
 	}
 }
 
+var cRealPageFn func(path string, pageSize int) (page.Factory, error)
+
 func cbody(sc cscenario) func() {
 	return func() {
 		debug.SetPanicOnFault(true)
@@ -159,6 +163,14 @@ func cbody(sc cscenario) func() {
 		_ = os.RemoveAll(dir)
 		w := &cworld{sc: sc, dir: dir, putBytes: map[int][]byte{}}
 		cw = w
+		// every store into a page (queue meta, consumer-group meta, index, data) is a scheduling point too:
+		// a position persisted outside the lock that protects it can then be overtaken by another thread
+		if cRealPageFn == nil {
+			cRealPageFn = queue.VerifSetPageFactory(nil)
+		}
+		prec := qpages.NewRecorder(dir)
+		prec.Before = func(op, rel string) { vsched.Point("store:"+op, nil) }
+		queue.VerifSetPageFactory(prec.Wrap(cRealPageFn))
 		fq, err := queue.NewFanOutQueue(dir, 0)
 		if err != nil {
 			vevid.Fatal("new fan-out queue: %v", err)
